@@ -14,6 +14,10 @@ def OutOk (out : List Res) (b : Nat) : Prop :=
 
 def EnvLt (env : Env) (b : Nat) : Prop := ∀ e ∈ env, e.2 < b
 
+@[simp] theorem RefSt.skip_pos (s : RefSt) (t : Nat) : (s.skip t).pos = s.pos + 2 * t := rfl
+@[simp] theorem RefSt.skip_out (s : RefSt) (t : Nat) : (s.skip t).out = s.out := rfl
+@[simp] theorem RefSt.use_pos (s : RefSt) (env : Env) (n : Name) : (s.use env n).pos = s.pos + 2 := rfl
+
 theorem OutOk.mono {out : List Res} {b b' : Nat} (h : OutOk out b) (hb : b ≤ b') : OutOk out b' :=
   ⟨fun r hr => ⟨by have := (h.1 r hr).1; omega, (h.1 r hr).2⟩, h.2⟩
 
@@ -42,7 +46,7 @@ theorem OutOk.use {s : RefSt} {env : Env} (ho : OutOk s.out s.pos) (he : EnvLt e
   · simp only [RefSt.use, List.pairwise_cons]
     exact ⟨fun r hr => (ho.1 r hr).1, ho.2⟩
 
-theorem EnvLt.bindNames {env : Env} (ns : List Name) : ∀ (p b : Nat) (env : Env), EnvLt env b →
+theorem EnvLt.bindNames (ns : List Name) : ∀ (p b : Nat) (env : Env), EnvLt env b →
     p + 2 * ns.length ≤ b → EnvLt (bindNames env p ns) b := by
   induction ns with
   | nil => intro p b env h _; simpa [Scope.bindNames] using h
@@ -112,7 +116,7 @@ theorem posStat : ∀ (st : Stat) (env : Env) (s : RefSt), EnvLt env s.pos → O
     have a : PosOk s (s.skip (1 + names.length + eqTokens vals)) := PosOk.start ho _
     have b := posExprs vals env _ (he.mono a.mono) a.out
     refine ⟨a.trans b, EnvLt.bindNames names _ _ _ (he.mono (a.trans b).mono) ?_⟩
-    have := b.mono; simp only [RefSt.skip] at this; omega
+    have := b.mono; rw [RefSt.skip_pos] at this; omega
   | .assign vars vals, env, s, he, ho => by
     simp only [refStat]
     obtain ⟨u1, u2⟩ := uses_spec vars s he ho
@@ -129,12 +133,12 @@ theorem posStat : ∀ (st : Stat) (env : Env) (s : RefSt), EnvLt env s.pos → O
       · exact he.mono a.mono e hm
     have b := posBlock body (bindNames ((n, s.pos + 4) :: env) (s.pos + 8) ps) _
       (EnvLt.bindNames ps _ _ _ he1 (by simp [RefSt.skip]; omega)) a.out
-    exact ⟨(a.trans b.1).skip 1, he1.mono (by have := b.1.mono; simp only [RefSt.skip] at *; omega)⟩
+    exact ⟨(a.trans b.1).skip 1, he1.mono (by have := b.1.mono; simp only [RefSt.skip_pos] at *; omega)⟩
   | .funcStat n ps body, env, s, he, ho => by
     simp only [refStat]
     have a0 : PosOk s (s.skip 1) := PosOk.start ho 1
     have a1 : PosOk s ((s.skip 1).use env n) :=
-      ⟨a0.out.use (he.mono a0.mono) n, by simp [RefSt.use, RefSt.skip]⟩
+      ⟨a0.out.use (he.mono a0.mono) n, by simp [RefSt.use, RefSt.skip]; omega⟩
     have a := a1.skip (2 + ps.length)
     have b := posBlock body (bindNames env (s.pos + 6) ps) _
       (EnvLt.bindNames ps _ _ _ (he.mono a.mono) (by simp [RefSt.skip, RefSt.use]; omega)) a.out
@@ -149,7 +153,9 @@ theorem posStat : ∀ (st : Stat) (env : Env) (s : RefSt), EnvLt env s.pos → O
       intro e hm
       rcases List.mem_cons.mp hm with rfl | hm
       · show s.pos + 2 < _
-        have := a2.mono; have := a0.mono; simp only [RefSt.skip] at *; omega
+        have m1 := (posExpr e1 env _ (he.mono a0.mono) a0.out).mono
+        have m2 := (posExpr e2 env _ (he.mono a1.mono) a1.out).mono
+        simp only [RefSt.skip_pos] at *; omega
       · exact he.mono a.mono e hm
     have b := posBlock body _ _ hev a.out
     exact ⟨(a.trans b.1).skip 1, he.mono ((a.trans b.1).skip 1).mono⟩
@@ -161,7 +167,7 @@ theorem posStat : ∀ (st : Stat) (env : Env) (s : RefSt), EnvLt env s.pos → O
     have b := posBlock body (bindNames env (s.pos + 2) vs) _
       (EnvLt.bindNames vs _ _ _ (he.mono a.mono) (by
         have := (posExpr e env _ (he.mono a0.mono) a0.out).mono
-        simp only [RefSt.skip] at *; omega)) a.out
+        simp only [RefSt.skip_pos] at *; omega)) a.out
     exact ⟨(a.trans b.1).skip 1, he.mono ((a.trans b.1).skip 1).mono⟩
   | .while_ c body, env, s, he, ho => by
     simp only [refStat]
@@ -207,7 +213,7 @@ end
 /-- the recorded uses of a whole program -/
 theorem reference_outOk (p : List Stat) :
     OutOk (refBlock [] { pos := startPos, out := [] } p).1.out (refBlock [] { pos := startPos, out := [] } p).1.pos :=
-  (posBlock p [] _ (fun _ h => by cases h) ⟨fun _ h => by cases h, List.Pairwise.nil⟩).1.out
+  (posBlock p [] _ (fun _ h => by cases h) ⟨fun _ h => (by cases h), List.Pairwise.nil⟩).1.out
 
 /-- a use lies after the declaration it resolves to -/
 theorem reference_decl_before_use (p : List Stat) (u d : Nat) (h : (u, some d) ∈ reference p) : d < u := by
